@@ -181,11 +181,28 @@ class YamlDocument(HierDictDocument):
             # the constructors of tagged scalars (!!int "x", !!timestamp "x")
             raise Fault('Client.YamlDecodeError', repr(e))
 
+    def _dump(self, o):
+        try:
+            return yaml.dump(o, **self.out_kwargs)
+
+        except UnicodeEncodeError:
+            # responses (faults above all) quote request data, which can hold
+            # lone surrogates when it came in as JSON. libyaml can't write
+            # them; the python emitter escapes them ("\\uD800").
+            kwargs = dict(self.out_kwargs)
+            pure = {getattr(yaml, 'CSafeDumper', None): yaml.SafeDumper,
+                    getattr(yaml, 'CDumper', None): yaml.Dumper} \
+                                                     .get(kwargs.get('Dumper'))
+            if pure is None:
+                raise
+
+            kwargs['Dumper'] = pure
+            return yaml.dump(o, **kwargs)
+
     def create_out_string(self, ctx, out_string_encoding='utf8'):
         """Sets ``ctx.out_string`` using ``ctx.out_document``."""
 
-        ctx.out_string = (yaml.dump(o, **self.out_kwargs)
-                                                      for o in ctx.out_document)
+        ctx.out_string = (self._dump(o) for o in ctx.out_document)
         if six.PY2 and out_string_encoding is not None:
             ctx.out_string = (
                 yaml.dump(o, **self.out_kwargs).encode(out_string_encoding)
